@@ -869,6 +869,11 @@ class AsyncFIXConnection:
             elif msg.msg_type == FMsg.SEQUENCERESET:
                 is_seqreset_applied = await self._process_seqreset(msg)
             elif msg.msg_type == FMsg.LOGOUT:
+                if int(msg[FTag.MsgSeqNum]) == self._session.next_num_in:
+                    # Logout is a part of the message sequence: count and journal it
+                    #  before the session is closed, otherwise the next Logon of the
+                    #  peer looks like a gap and is answered with ResendRequest
+                    await self._finalize_message(msg, raw_msg)
                 await self._process_logout(msg)
 
             if self._connection_state <= ConnectionState.DISCONNECTED_BROKEN_CONN:
